@@ -71,3 +71,10 @@ From PKOCorr Require Import SetCorr SetMonitors SetMonSound SetMonSound2.
 Theorem C11_set_monitor_retry_sound : forall c : scase, m11r (set_obs_s c (SetCorr.model_run c)) = true.
 Proof. exact m11r_sound. Qed.
 Print Assumptions C11_set_monitor_retry_sound.
+
+(** m11 (all three clauses: the same object listed twice => no member request; a namespaced ObjectSet never has a
+    member request outside its namespace or on a cluster-scoped kind, in rollout and teardown alike; every member
+    request of an active pass names an object of a local phase all of whose objects pass preflight). *)
+Theorem C11_set_monitor_sound : forall c : scase, m11 (set_obs_s c (SetCorr.model_run c)) = true.
+Proof. exact m11_sound. Qed.
+Print Assumptions C11_set_monitor_sound.
